@@ -192,17 +192,6 @@ def negativeVerdictHistory : List COp :=
    .query (.objValidUnits 5 3),
    .query (.validUnits 5)]
 
-example : negativeVerdictHistory.all (opClean []) = true := by decide +kernel
-example : coutputs [] (CState.fresh Registry.empty) negativeVerdictHistory
-    = [.ok (.reg .unit), .ok (.reg .unit), .error .units, .error .units,
-       .ok (.reg (.cat ⟨5, 1, none, 2, 0, none, none, false, false, 5⟩)),
-       .ok (.ans .unit), .ok (.ans (.quantity 5 3)), .error .units, .error .units] := by decide +kernel
-/-- the memo tables really are populated (and then emptied by the registration) -/
-example : (crun [] (CState.fresh Registry.empty) (negativeVerdictHistory.take 4)).memo = [((5, 3), false)] := by
-  decide +kernel
-example : (crun [] (CState.fresh Registry.empty) (negativeVerdictHistory.take 7)).cache.length = 1 := by
-  decide +kernel
-
 /-- the same composition in both orders inside one history (1 = length, 2 = m, 5 = depth,
 7 = second category of the same type): each product reports its own order -/
 def bothOrdersHistory : List COp :=
@@ -214,13 +203,5 @@ def bothOrdersHistory : List COp :=
    .query (.derived [(7, 2, 1), (5, 2, -1)]),
    .query (.derived [(5, 2, -1), (7, 2, 1)]),
    .query (.prod .div 5 2 7 2 6 3)]
-
-example : (coutputs [] (CState.fresh Registry.empty) bothOrdersHistory).drop 3
-    = [.ok (.ans (.descValue ⟨[(5, 2, 1), (7, 2, 1)], [(1, 2)]⟩ 6)),
-       .ok (.ans (.descValue ⟨[(7, 2, 1), (5, 2, 1)], [(1, 2)]⟩ 6)),
-       .ok (.ans (.desc ⟨[(7, 2, 1), (5, 2, -1)], [(1, 0)]⟩)),
-       .ok (.ans (.desc ⟨[(5, 2, -1), (7, 2, 1)], [(1, 0)]⟩)),
-       .ok (.ans (.descValue ⟨[], []⟩ 2))] := by decide +kernel
-example : (crun [] (CState.fresh Registry.empty) bothOrdersHistory).dcache.length = 5 := by decide +kernel
 
 end Barril.Reg
